@@ -3,7 +3,8 @@ get_match, FindIter). Used by C01, C02, C03, C05, C09, C10, C14, C19."""
 import re
 
 from acverif.mir import short, tstr, subterms, affine_str
-from acverif.rl import (is_call, peel, peel_all, is_var, is_agg, is_const, bool_gates, try_gates, discr_gates, reachable_without,
+from acverif.rl import (is_call, peel, peel_all, is_var, is_agg, is_const, bool_gates, try_gates, result_gates, discr_gates, reachable_without, cmp_gates,
+                        param_of_type, param_at, var_of_type, user_locals_of_type,
                         must_pass, line_of, expand_vars, cmp_norm, atom, rewrite, reaching_defs, var_defs_terms, eq_cond)
 
 FIND = 'automaton::try_find_fwd'
@@ -23,17 +24,26 @@ class Driver:
         self.cx = cx
         self.b = b = cx.body(path)
         self.over = path == OVER_IMP
-        self.inp = ('v', 'input', b.locals_named('input')[0])
-        self.aut = ('v', 'aut', b.locals_named('aut')[0])
-        if self.over:
-            self.state = ('v', 'state', b.locals_named('state')[0])
-            self.cur = ('f', self.state, 'at')
-        else:
-            at = [l for l in b.locals_named('at')]
-            self.cur = ('v', 'at', at[0]) if at else None
+        # roles are resolved by type / position / data flow, never by variable name
+        self.inp = param_of_type(b, r'util::search::Input<')
+        self.aut = param_at(b, 1)
+        self.anch = param_of_type(b, r'^util::search::Anchored$')
+        self.early = param_of_type(b, r'^bool$')
         ns = b.calls(r'Automaton::next_state$')
         self.ns = ns
         self.nsb = ns[0][0] if len(ns) == 1 else None
+        if self.over:
+            self.state = param_of_type(b, r'automaton::OverlappingState')
+            self.cur = ('f', self.state, 'at')
+        else:
+            self.cur = None
+            if self.nsb is not None:
+                byte = b.call_term(*ns[0])[2][3]
+                if byte[0] == 'idx' and byte[2][0] == 'v':
+                    self.cur = byte[2]
+        if self.inp is None or self.aut is None or (self.over and self.state is None):
+            from acverif.core import Missing
+            raise Missing('parameters of %s (input / automaton / state) not identified by type' % path)
         loops = b.loops()
         hs = [h for h, blks in loops.items() if self.nsb in blks]
         hs.sort(key=lambda h: -len(loops[h]))
@@ -65,51 +75,25 @@ class Driver:
             if not is_call(x, r'util::search::Anchored::is_anchored$'):
                 return False
             a = peel(x[2][0])
-            return is_var(a, 'anchored') or self.input_call(a, 'get_anchored')
+            return (self.anch is not None and a == self.anch) or self.input_call(a, 'get_anchored')
         return bool_gates(b, pred)
 
     def end_gates(self):
         """[(block, in_span_edges, out_of_span_edges)] for tests `cursor < input.end()`"""
-        b = self.b
-        out = []
         want = cmp_norm(('op', 'Lt', atom('CUR'), atom('END')))
-        for blk, sc in b.switches():
-            if sc[0] != 'bool':
-                continue
-            cn = cmp_norm(rewrite(sc[1], lambda y: atom('CUR') if y == self.cur else (atom('END') if self.input_call(y, 'end') else None)))
-            if cn == want:
-                out.append((blk, [(blk, t) for t in sc[2]], [(blk, t) for t in sc[3]]))
-            elif cn is not None and negate(cn) == want:
-                out.append((blk, [(blk, t) for t in sc[3]], [(blk, t) for t in sc[2]]))
-        return out
+        return cmp_gates(self.b, lambda y: atom('CUR') if y == self.cur else (atom('END') if self.input_call(y, 'end') else None), want)
 
     def start_filter_gates(self, m):
         """gates comparing m.start() with input.start(); returns [(block, pass_edges, reject_edges)] where reject = m.start() > input.start()"""
-        b = self.b
         want = cmp_norm(('op', 'Gt', atom('MS'), atom('IS')))
-        out = []
 
-        def norm(x):
-            def fn(y):
-                if is_call(y, r'util::search::Match::start$') and peel(y[2][0]) == m:
-                    return atom('MS')
-                if self.input_call(y, 'start'):
-                    return atom('IS')
-                return None
-            return rewrite(x, fn)
-        for blk, sc in b.switches():
-            if sc[0] != 'bool':
-                continue
-            cn = cmp_norm(norm(sc[1]))
-            if cn is None or 'MS' not in cn[2] or 'IS' not in cn[2]:
-                continue
-            te = [(blk, t) for t in sc[2]]
-            fe = [(blk, t) for t in sc[3]]
-            if cn == want:
-                out.append((blk, fe, te))
-            elif negate(cn) == want:
-                out.append((blk, te, fe))
-        return out
+        def fn(y):
+            if is_call(y, r'util::search::Match::start$') and peel(y[2][0]) == m:
+                return atom('MS')
+            if self.input_call(y, 'start'):
+                return atom('IS')
+            return None
+        return [(blk, fe, te) for blk, te, fe in cmp_gates(self.b, fn, want)]
 
 
 def get_match_sites(d):
@@ -132,7 +116,7 @@ def publications(d):
                 else:
                     some.append((bi, si, val))
     else:
-        ml = b.locals_named('mat')
+        ml = user_locals_of_type(b, r'^core::option::Option<util::search::Match>$')
         for l in ml:
             for bi, si, t in var_defs_terms(b, l):
                 if is_agg(t, r'Option$', 'Some'):
@@ -180,6 +164,11 @@ def sid_is_start_only(d, blk, sid_term):
             seen.add(key)
             t = b.call_term(db, obj) if kind == 'call' else b.rvalue_term(obj['r'], 0, db)
             t = peel_all(t)
+            # payload of an explicit `match start_state(..) { Ok(sid) => sid, Err(e) => return Err(e) }`
+            while t[0] == 'f' and t[1][0] == 'dc' and t[1][2] in ('Ok', 'Continue', 'Some'):
+                t = peel_all(t[1][1])
+                if is_call(t, r'Try::branch$'):
+                    t = peel_all(t[2][0])
             if is_call(t, r'Automaton::start_state$'):
                 continue
             if is_var(t):
@@ -239,11 +228,13 @@ def r09_2(cx):
         if not loops:
             cx.bad('R09.2', b, 'loop', 'next_state has no failure loop')
             continue
-        sl = b.locals_named('sid')
+        sidp = param_of_type(b, r'^util::primitives::StateID$')
+        anchp = param_of_type(b, r'^util::search::Anchored$')
+        sl = [sidp[2]] if sidp else []
         # stores to sid inside the loop = following the failure link
         ok = True
         n = 0
-        ag = bool_gates(b, lambda x: is_call(x, r'Anchored::is_anchored$') and is_var(peel(x[2][0]), 'anchored'))
+        ag = bool_gates(b, lambda x: is_call(x, r'Anchored::is_anchored$') and peel(x[2][0]) == anchp)
         cutf = [e for g in ag for e in g[3]]
         for l in sl:
             for bi, si, t in var_defs_terms(b, l):
@@ -278,8 +269,8 @@ def r09_3(cx):
     """no prefilter when anchored; flag plumbing of try_find_fwd / try_find_overlapping_fwd"""
     for outer, inner in ((FIND, FIND_IMP), (OVER, OVER_IMP)):
         b, calls = imp_calls(cx, outer, inner)
-        inp = ('v', 'input', b.locals_named('input')[0])
-        ag = bool_gates(b, lambda x: is_call(x, r'Anchored::is_anchored$') and is_call(peel(x[2][0]), r'Input::get_anchored$') and peel(peel(x[2][0])[2][0]) == inp)
+        inp = param_of_type(b, r'util::search::Input<')
+        ag = bool_gates(b, lambda x: is_call(x, r'Anchored::is_anchored$') and is_call(peel(expand_vars(b, x[2][0])), r'Input::get_anchored$') and peel(peel(expand_vars(b, x[2][0]))[2][0]) == inp)
         t_edges = [e for g in ag for e in g[2]]
         f_edges = [e for g in ag for e in g[3]]
         n = 0
@@ -296,7 +287,7 @@ def r09_3(cx):
                 cx.report('R09.3', b, 'pre:None@%d' % n, True, 'no prefilter on this path', line_of(b, bi))
             else:
                 cx.bad('R09.3', b, 'pre:?@%d' % n, 'prefilter argument %s cannot be classified' % tstr(pre, 80), line_of(b, bi))
-        cx.floor('R09.3', 'calls of %s' % inner.split('::')[-1], n, 5 if outer == FIND else 2)
+        cx.floor('R09.3', 'calls of %s' % inner.split('::')[-1], n, 2)
         # every path from the anchored edge reaches only pre=None calls
         for bi, ct in calls:
             if is_agg(ct[2][2], r'Option$', 'Some'):
@@ -308,8 +299,9 @@ def r09_3(cx):
 def r09_4(cx):
     """mode plumbing"""
     b, calls = imp_calls(cx, FIND, FIND_IMP)
-    inp = ('v', 'input', b.locals_named('input')[0])
-    ag = bool_gates(b, lambda x: is_call(x, r'Anchored::is_anchored$') and is_call(peel(x[2][0]), r'Input::get_anchored$') and peel(peel(x[2][0])[2][0]) == inp)
+    inp = param_of_type(b, r'util::search::Input<')
+    autp = param_at(b, 1)
+    ag = bool_gates(b, lambda x: is_call(x, r'Anchored::is_anchored$') and is_call(peel(expand_vars(b, x[2][0])), r'Input::get_anchored$') and peel(peel(expand_vars(b, x[2][0]))[2][0]) == inp)
     t_edges = [e for g in ag for e in g[2]]
     f_edges = [e for g in ag for e in g[3]]
     for i, (bi, ct) in enumerate(calls):
@@ -323,7 +315,7 @@ def r09_4(cx):
         else:
             ok = is_call(a, r'Input::get_anchored$') and peel(a[2][0]) == inp
             what = 'mode = input.get_anchored()'
-        okargs = is_var(peel(ct[2][0]), 'aut') and peel(ct[2][1]) == inp
+        okargs = peel(ct[2][0]) == autp and peel(ct[2][1]) == inp
         cx.report('R09.4', b, 'mode@%d' % i, ok and okargs, what if ok and okargs else 'the anchoring mode / aut / input handed to try_find_fwd_imp does not follow the request: %s' % tstr(ct, 200), line_of(b, bi))
     for path in (FIND_IMP, OVER_IMP):
         d = Driver(cx, path)
@@ -335,7 +327,7 @@ def r09_4(cx):
         for bi, t in d.ns:
             ct = b.call_term(bi, t)
             m = peel(ct[2][1])
-            ok = peel(ct[2][0]) == d.aut and (is_var(m, 'anchored') or d.input_call(m, 'get_anchored'))
+            ok = peel(ct[2][0]) == d.aut and ((d.anch is not None and m == d.anch) or d.input_call(m, 'get_anchored'))
             cx.report('R09.4', b, 'next_state-mode', ok, 'next_state receives the request\'s anchoring mode' if ok else 'next_state mode is %s' % tstr(m, 80), line_of(b, bi))
     # iterator probes and restarts
     fi = cx.body("automaton::FindIter::<'a, 'h, A>::search")
@@ -348,7 +340,7 @@ def r09_4(cx):
 def r10_2(cx):
     for outer, inner in ((FIND, FIND_IMP), (OVER, OVER_IMP)):
         b, calls = imp_calls(cx, outer, inner)
-        inp = ('v', 'input', b.locals_named('input')[0])
+        inp = param_of_type(b, r'util::search::Input<')
         g = bool_gates(b, lambda x: is_call(x, r'Input::is_done$') and peel(x[2][0]) == inp)
         cut = [e for x in g for e in x[3]]
         targets = [bi for bi, ct in calls] + [bi for bi, t in b.calls(r'Automaton::(prefilter|start_state|next_state)$')]
@@ -451,14 +443,15 @@ def r10_3(cx):
             cx.report('R10.3', b, 'cursor-def:%s' % (kind or 'other'), kind is not None,
                       'cursor definition: %s' % kind if kind else 'cursor is assigned %s (allowed: input.start(), +1, a prefilter candidate for get_span() or for cursor..input.end())' % tstr(v, 160), line_of(b, db, di))
     g = cx.body('automaton::get_match')
-    t = expand_vars(g, g.local_term(0, expand=True))
+    t = expand_vars(g, g.def_term(0) or g.local_term(0))
     ok = False
+    p_sid, p_index, p_at = param_at(g, 2), param_at(g, 3), param_at(g, 4)
     if is_call(t, r'util::search::Match::new$'):
         pid, rg = t[2][0], peel(t[2][1])
-        okpid = is_call(pid, r'Automaton::match_pattern$') and is_var(peel(pid[2][1]), 'sid') and is_var(peel(pid[2][2]), 'index')
+        okpid = is_call(pid, r'Automaton::match_pattern$') and peel(pid[2][1]) == p_sid and peel(pid[2][2]) == p_index
         if is_agg(rg, r'core::ops::Range$'):
             s, e = rg[3]['start'], rg[3]['end']
-            oklen = s[0] == 'op' and s[1] == 'Sub' and is_var(s[2], 'at') and is_call(s[3], r'Automaton::pattern_len$') and s[3][2][1] == pid and is_var(e, 'at')
+            oklen = s[0] == 'op' and s[1] == 'Sub' and s[2] == p_at and is_call(s[3], r'Automaton::pattern_len$') and s[3][2][1] == pid and e == p_at
             ok = okpid and oklen
     cx.report('R10.3', g, 'get_match', ok, 'get_match = Match::new(match_pattern(sid, index), at - pattern_len(pid) .. at)' if ok else 'get_match builds %s' % tstr(t, 200))
 
@@ -466,7 +459,7 @@ def r10_3(cx):
 # =================================================================================================== C05 use sites / C19 progress
 def special_gates(d):
     b = d.b
-    sid_ok = lambda x: len(x[2]) == 2 and peel(x[2][0]) == d.aut and is_var(peel(x[2][1]), 'sid')
+    sid_ok = lambda x: len(x[2]) == 2 and peel(x[2][0]) == d.aut and var_of_type(b, peel(x[2][1]), r'^util::primitives::StateID$')
     sp = bool_gates(b, lambda x: is_call(x, r'Automaton::is_special$') and sid_ok(x))
     dd = bool_gates(b, lambda x: is_call(x, r'Automaton::is_dead$') and sid_ok(x))
     mm = [g for g in bool_gates(b, lambda x: is_call(x, r'Automaton::is_match$') and sid_ok(x)) if g[0] in d.loop]
@@ -550,12 +543,13 @@ def r19_1(cx):
             # cursor = i guarded by i > cursor
             if is_var(v):
                 iv = v
+                ivx = peel_all(expand_vars(b, iv, keep=('at', 'state', 'input')))
 
-                def fn(y, iv=iv):
-                    if y == iv:
-                        return atom('I')
+                def fn(y, iv=iv, ivx=ivx):
                     if y == d.cur:
                         return atom('CUR')
+                    if y == iv or (is_var(y) and peel_all(expand_vars(b, y, keep=('at', 'state', 'input'))) == ivx):
+                        return atom('I')
                     return None
                 gates = []
                 for blk, sc in b.switches():
@@ -566,9 +560,7 @@ def r19_1(cx):
                         gates += [(blk, t) for t in sc[2]]
                     elif cn is not None and negate(cn) == cmp_norm(('op', 'Gt', atom('I'), atom('CUR'))):
                         gates += [(blk, t) for t in sc[3]]
-                ivdef = b.defs().get(iv[2], [])
-                src = ivdef[0][0] if len(ivdef) == 1 else d.nsb
-                if gates and not reachable_without(b, [db], gates, src=src):
+                if gates and not reachable_without(b, [db], gates, src=d.nsb):
                     incr.append(db)
                     continue
             okdefs = False
@@ -615,6 +607,8 @@ def r19_3(cx):
             continue
         h = max(loops, key=lambda x: len(loops[x]))
         blks = loops[h]
+        sidp = param_of_type(b, r'^util::primitives::StateID$')
+        sl = [sidp[2]] if sidp else []
         inner = [x for x in loops if x != h]
         okin = all(loops[x] < blks for x in inner)
         # inner loops must be iterator-driven (bounded by a slice / chunk iterator)
@@ -634,9 +628,11 @@ def r19_3(cx):
                     outside = [d for d in b.defs().get(l, []) if d[0] not in blks]
                     if outside or l <= b.j['arg_count']:
                         carried.add(nm)
-        cx.report('R19.3', b, 'carried', carried == {'sid'}, 'the only loop-carried variable of the failure loop is sid' if carried == {'sid'} else 'loop-carried variables: %s' % sorted(carried))
+        sidname = {b.locals[x]['names'][0] for x in sl if b.locals[x]['names']}
+        cx.report('R19.3', b, 'carried', carried == sidname and bool(sidname), 'the only loop-carried variable of the failure loop is the state id' if carried == sidname and sidname else 'loop-carried variables: %s' % sorted(carried))
         # every trip around the failure loop passes the store sid <- failure link
-        sl = [l for l in b.locals_named('sid')]
+        sidp = param_of_type(b, r'^util::primitives::StateID$')
+        sl = [sidp[2]] if sidp else []
         stores = [(bi, si, tm) for l in sl for bi, si, tm in var_defs_terms(b, l) if bi in blks]
         okf = len(stores) == 1
         if okf:
@@ -668,55 +664,69 @@ def r19_3(cx):
 
 # =================================================================================================== C14 / C02 flag plumbing
 def r02_1(cx):
+    from acverif.rl import value_roots
     b, calls = imp_calls(cx, FIND, FIND_IMP)
-    inp = ('v', 'input', b.locals_named('input')[0])
-    el = b.locals_named('earliest')
-    if not el:
-        cx.bad('R02.1', b, 'earliest', 'variable earliest not found')
+    inp = param_of_type(b, r'util::search::Input<')
+    autp = param_at(b, 1)
+    # the flag: the user boolean that reaches the `earliest` argument of the driver calls
+    cand = user_locals_of_type(b, r'^bool$')
+    flag = None
+    for bi, ct in calls:
+        e = peel(ct[2][4])
+        if is_var(e) and e[2] in cand:
+            flag = e
+    if flag is None and len(cand) == 1:
+        flag = ('v', b.locals[cand[0]]['names'][0], cand[0])
+    if flag is None:
+        cx.bad('R02.1', b, 'earliest', 'the earliest flag of try_find_fwd could not be identified')
         return
-    E = ('v', 'earliest', el[0])
-    defs = var_defs_terms(b, el[0])
-    sg = bool_gates(b, lambda x: is_call(x, r'MatchKind::is_standard$') and is_call(x[2][0], r'Automaton::match_kind$') and is_var(peel(x[2][0][2][0]), 'aut'))
-    ok = len(defs) >= 1 and bool(sg)
+    E = flag
+    defs = var_defs_terms(b, E[2])
+    sg = bool_gates(b, lambda x: is_call(x, r'MatchKind::is_standard$') and is_call(x[2][0], r'Automaton::match_kind$') and peel(x[2][0][2][0]) == autp)
+    ok = len(defs) >= 1
     why = []
+    saw_std = False
     for bi, si, t in defs:
+        t = expand_vars(b, t, keep=())
         if t == ('c', 1):
+            saw_std = True
             # only on the standard edge
-            if reachable_without(b, [bi], [e for g in sg for e in g[2]]):
+            if not sg or reachable_without(b, [bi], [e for g in sg for e in g[2]]):
                 ok = False
-                why.append('earliest = true outside the is_standard edge')
+                why.append('flag = true outside the is_standard edge')
         elif is_call(t, r'Input::get_earliest$') and peel(t[2][0]) == inp:
-            if reachable_without(b, [bi], [e for g in sg for e in g[3]]):
+            if not sg or reachable_without(b, [bi], [e for g in sg for e in g[3]]):
                 ok = False
-                why.append('get_earliest on the standard edge')
-        elif t[0] == 'op' and t[1] in ('BitOr',) and {tstr(t[2]), tstr(t[3])} >= set():
+                why.append('get_earliest decides although the searcher is standard')
+        elif t[0] == 'op' and t[1] == 'BitOr':
             sides = [t[2], t[3]]
-            if not (any(is_call(s, r'MatchKind::is_standard$') for s in sides) and any(is_call(s, r'Input::get_earliest$') for s in sides)):
+            if any(is_call(s, r'MatchKind::is_standard$') for s in sides) and any(is_call(s, r'Input::get_earliest$') for s in sides):
+                saw_std = True
+            else:
                 ok = False
-                why.append('earliest = %s' % tstr(t, 100))
+                why.append('flag = %s' % tstr(t, 100))
         else:
             ok = False
-            why.append('earliest = %s' % tstr(t, 100))
-    # on the standard edge, earliest must be true: the false edge of is_standard must be the only way to get_earliest
-    if ok and not any(t == ('c', 1) or t[0] == 'op' for _, _, t in defs):
+            why.append('flag = %s' % tstr(t, 100))
+    if ok and not saw_std:
         ok = False
         why.append('standard semantics do not force earliest')
     cx.report('R02.1', b, 'earliest-derivation', ok, 'earliest = match_kind().is_standard() || input.get_earliest()' if ok else 'earliest is not is_standard() || get_earliest(): %s' % '; '.join(why))
     eg = bool_gates(b, lambda x: x == E)
     for i, (bi, ct) in enumerate(calls):
-        e = ct[2][4]
+        e = peel(ct[2][4])
         if e == E:
             ok = True
             what = 'passes the earliest flag itself'
         elif e[0] == 'c':
             cut = [ed for g in eg for ed in (g[2] if e[1] == 1 else g[3])]
             ok = bool(eg) and not reachable_without(b, [bi], cut)
-            what = 'constant %s only on the matching edge of `earliest`' % bool(e[1])
+            what = 'constant %s only on the matching edge of the flag' % bool(e[1])
         else:
             ok = False
             what = ''
         cx.report('R02.1', b, 'earliest-arg@%d' % i, ok, what if ok else 'try_find_fwd_imp receives earliest = %s on a path where the flag may differ' % tstr(e, 60), line_of(b, bi))
-    cx.floor('R02.1', 'calls of try_find_fwd_imp', len(calls), 5)
+    cx.floor('R02.1', 'calls of try_find_fwd_imp', len(calls), 3)
 
 
 def r14_1(cx):
@@ -749,8 +759,7 @@ def r14_1(cx):
 def r14_3(cx):
     d = Driver(cx, FIND_IMP)
     b = d.b
-    el = b.locals_named('earliest')
-    E = ('v', 'earliest', el[0])
+    E = d.early
     # uses of earliest: only as a switch discriminant
     uses = 0
     bad = []
@@ -771,8 +780,8 @@ def r14_3(cx):
     cx.report('R14.3', b, 'flag-uses', not bad and len(eg) >= 2, 'earliest is used only as a branch condition (%d branches)' % len(eg) if not bad and len(eg) >= 2 else 'earliest flows into data/calls at blocks %s or has fewer than 2 branch uses' % bad)
     some, none = publications(d)
     pub_blocks = {bi for bi, si, x in some}
-    ml = b.locals_named('mat')
-    MAT = ('v', 'mat', ml[0]) if ml else None
+    ml = user_locals_of_type(b, r'^core::option::Option<util::search::Match>$')
+    MAT = ('v', b.locals[ml[0]]['names'][0], ml[0]) if ml else None
     for i, (gb, cond, te, fe) in enumerate(eg):
         # true edge: straight to return Ok(mat) with no side effects
         ok = True
@@ -816,8 +825,8 @@ def r01_5(cx):
     d = Driver(cx, FIND_IMP)
     b = d.b
     some, none = publications(d)
-    ml = b.locals_named('mat')
-    MAT = ('v', 'mat', ml[0]) if ml else None
+    ml = user_locals_of_type(b, r'^core::option::Option<util::search::Match>$')
+    MAT = ('v', b.locals[ml[0]]['names'][0], ml[0]) if ml else None
     okn = len(none) == 1 and none[0][0] not in d.loop and b.dominates(none[0][0], d.header)
     cx.report('R01.5', b, 'mat-init', okn, 'mat starts as None before the loop' if okn else 'mat is not initialised to None exactly once before the loop')
     oks = all(match_source(d, x) is not None for bi, si, x in some) and len(some) == 2
@@ -881,56 +890,53 @@ def r01_5(cx):
 
 
 def r01_6(cx):
-    n = cx.body("<automaton::FindIter<'a, 'h, A> as core::iter::Iterator>::next")
-    b = n
-    self_input = lambda t: t[0] == 'f' and t[2] == 'input' and is_var(t[1], 'self')
-    ml = b.locals_named('m')
-    M = ('v', 'm', ml[0]) if ml else None
-    mdefs = var_defs_terms(b, ml[0]) if ml else []
-    okm = len(mdefs) == 2
-    srcs = []
-    for bi, si, t in mdefs:
-        t2 = peel_all(expand_vars(b, t, keep=('m', 'self')))
-        if t2[0] == 'f' and t2[1][0] == 'dc':
-            t2 = t2[1][1]
-            if is_call(t2, r'Try::branch$'):
-                t2 = t2[2][0]
-        srcs.append(short(t2[1]).rsplit('::', 1)[-1] if t2[0] == 'call' else tstr(t2, 40))
-    okm = sorted(srcs) == ['handle_overlapping_empty_match', 'search']
-    cx.report('R01.6', b, 'm-sources', okm, 'm = self.search()?, optionally replaced by handle_overlapping_empty_match(m)?' if okm else 'm comes from %s' % srcs)
-    # empty-match branch guard
-    g = bool_gates(b, lambda x: is_call(x, r'util::search::Match::is_empty$') and peel(x[2][0]) == M)
+    from acverif.rl import value_roots
+    b = cx.body("<automaton::FindIter<'a, 'h, A> as core::iter::Iterator>::next")
+    self_input = lambda t: isinstance(t, tuple) and t[0] == 'f' and t[2] == 'input' and is_var(t[1], 'self')
+    rets = [(bi, si, b.rvalue_term(st['r'], 0, bi)) for bi, si, pl, st in b.stores() if si != 'term' and pl['l'] == 0 and not pl['pr']]
+    somes = [(bi, si, v[3]['0']) for bi, si, v in rets if is_agg(v, r'Option$', 'Some')]
+    other = [v for bi, si, v in rets if not is_agg(v, r'Option$', 'Some') and not is_agg(v, r'Option$', 'None')]
+    cx.report('R01.6', b, 'returns', len(somes) >= 1 and not other, 'returns are Some(m) or None (from ?)' if somes and not other else 'other return values %s' % [tstr(v, 60) for v in other])
     hb = b.calls(r'FindIter::handle_overlapping_empty_match$')
-    okg = bool(g) and len(hb) == 1 and not reachable_without(b, [hb[0][0]], [e for x in g for e in x[2]])
-    okarg = False
-    if hb:
+    srch = b.calls(r'FindIter::search$')
+    for n, (rb, rsi, M) in enumerate(somes):
+        # where the yielded match comes from
+        roots = value_roots(b, M, rb, rsi)
+        kinds = sorted({short(r[1]).rsplit('::', 1)[-1] if r[0] == 'call' else tstr(r, 40) for r in roots})
+        okm = kinds in (['handle_overlapping_empty_match', 'search'], ['search']) and len(hb) == 1
+        cx.report('R01.6', b, 'm-sources', okm, 'the yielded match is self.search()?, replaced by handle_overlapping_empty_match(m)? when empty' if okm else 'the yielded match comes from %s' % kinds, line_of(b, rb, rsi))
+        # restart: set_start(self.input, m.end()) and last_match_end = Some(m.end()) for the yielded m, on every path to the return
+        def is_end_of_M(x):
+            x = expand_vars(b, x)
+            return is_call(x, r'util::search::Match::end$') and peel(x[2][0]) == M
+        ss = [(bi, b.call_term(bi, t0)) for bi, t0 in b.calls(r'util::search::Input::set_start$')]
+        ss = [(bi, ct) for bi, ct in ss if self_input(peel(ct[2][0])) and is_end_of_M(ct[2][1])]
+        lme = [(bi, val) for bi, si, tt, val, st in b.field_stores() if tt[0] == 'f' and tt[2] == 'last_match_end' and is_var(tt[1], 'self')
+               and is_agg(val, r'Option$', 'Some') and is_end_of_M(val[3]['0'])]
+        okr = bool(ss) and bool(lme) and must_pass(b, [rb], [x[0] for x in ss]) and must_pass(b, [rb], [x[0] for x in lme])
+        # M is not redefined between these updates and the return
+        if okr and is_var(M):
+            for db, di, tm in var_defs_terms(b, M[2]):
+                if rb in b.reach_after(db) and any(db in b.reach_after(x[0]) for x in ss + lme):
+                    okr = False
+        cx.report('R01.6', b, 'restart', okr, 'every Some(m) is preceded by input.set_start(m.end()) and last_match_end = Some(m.end()) for that m' if okr else 'the iterator does not restart at m.end() / record last_match_end on every yielded match', line_of(b, rb, rsi))
+    # empty-match branch: the handler runs exactly when the found match is empty, with that match
+    okg = False
+    if len(hb) == 1:
         ct = b.call_term(*hb[0])
-        okarg = is_var(peel(ct[2][0]), 'self') and peel(ct[2][1]) == M
-    cx.report('R01.6', b, 'empty-guard', okg and okarg, 'handle_overlapping_empty_match(m) runs exactly when m.is_empty()' if okg and okarg else 'the empty-match handler is not guarded by m.is_empty() (or gets another match)')
-    # on every Some(m) return: set_start(m.end()) and last_match_end = Some(m.end())
-    ss = b.calls(r'util::search::Input::set_start$')
-    okss = False
-    if len(ss) == 1:
-        ct = b.call_term(*ss[0])
-        okss = self_input(peel(ct[2][0])) and is_call(ct[2][1], r'Match::end$') and peel(ct[2][1][2][0]) == M
-    lme = [(bi, val) for bi, si, tt, val, st in b.field_stores() if tt[0] == 'f' and tt[2] == 'last_match_end' and is_var(tt[1], 'self')]
-    oklm = len(lme) == 1 and is_agg(lme[0][1], r'Option$', 'Some') and is_call(lme[0][1][3]['0'], r'Match::end$') and peel(lme[0][1][3]['0'][2][0]) == M
-    rets = [(bi, b.rvalue_term(st['r'], 0, bi)) for bi, si, pl, st in b.stores() if si != 'term' and pl['l'] == 0 and not pl['pr']]
-    somes = [bi for bi, v in rets if is_agg(v, r'Option$', 'Some') and v[3]['0'] == M]
-    okret = len(somes) == 1 and okss and oklm and must_pass(b, somes, [ss[0][0]]) and must_pass(b, somes, [lme[0][0]])
-    # m is not reassigned between the updates and the return
-    if okret:
-        for bi, si, t in mdefs:
-            if somes[0] in b.reach_after(bi) and (ss[0][0] in b.reach(0, cut_blocks=[bi]) and bi in b.reach_after(ss[0][0])):
-                okret = False
-    cx.report('R01.6', b, 'restart', okret, 'every Some(m) is preceded by input.set_start(m.end()) and last_match_end = Some(m.end()) for that m' if okret else 'the iterator does not restart at m.end() / record last_match_end on every yielded match')
-    other = [v for bi, v in rets if not (is_agg(v, r'Option$', 'Some') and v[3]['0'] == M) and not is_agg(v, r'Option$', 'None')]
-    calls_fr = b.calls(r'FromResidual::from_residual$')
-    cx.report('R01.6', b, 'returns', not other, 'returns are Some(m) or None (from ?)' if not other else 'other return values %s' % [tstr(v, 60) for v in other])
+        F = peel(ct[2][1])
+        g = bool_gates(b, lambda x: is_call(x, r'util::search::Match::is_empty$') and peel(x[2][0]) == F)
+        okg = bool(g) and is_var(peel(ct[2][0]), 'self') and not reachable_without(b, [hb[0][0]], [e for x in g for e in x[2]])
+        froots = value_roots(b, F, hb[0][0])
+        okg = okg and all(is_call(r, r'FindIter::search$') for r in froots) and bool(froots)
+        # an empty match cannot be yielded without going through the handler
+        if okg and somes:
+            okg = all(must_pass(b, [rb for rb, _, _ in somes], [hb[0][0]], src=tg) for x in g for _, tg in x[2])
+    cx.report('R01.6', b, 'empty-guard', okg, 'handle_overlapping_empty_match(m) runs exactly when the match found by search() is empty, and an empty match is only yielded through it' if okg else 'the empty-match handler is not guarded by m.is_empty() of the found match (or can be bypassed)')
+    # other stores to last_match_end / other set_start calls are foreign
     h = cx.body("automaton::FindIter::<'a, 'h, A>::handle_overlapping_empty_match")
     b = h
-    ml = b.locals_named('m')
-    M = ('v', 'm', ml[0]) if ml else None
+    M = param_at(b, 2)
     eqg = []
     for blk, sc in b.switches():
         if sc[0] != 'bool':
@@ -938,7 +944,7 @@ def r01_6(cx):
         e = eq_cond(sc[1])
         if e:
             sides = [expand_vars(b, peel(x)) for x in (e[0], e[1])]
-            a = [x for x in sides if is_agg(x, r'Option$', 'Some') and is_call(x[3]['0'], r'Match::end$') and peel(x[3]['0'][2][0]) == M]
+            a = [x for x in sides if is_agg(x, r'Option$', 'Some') and is_call(expand_vars(b, x[3]['0']), r'Match::end$') and peel(expand_vars(b, x[3]['0'])[2][0]) == M]
             c = [x for x in sides if x[0] == 'f' and x[2] == 'last_match_end' and is_var(x[1], 'self')]
             if a and c:
                 eqg.append((blk, [(blk, t) for t in (sc[2] if e[2] else sc[3])], [(blk, t) for t in (sc[3] if e[2] else sc[2])]))
@@ -949,26 +955,41 @@ def r01_6(cx):
         cut = [e for g in eqg for e in g[1]]
         ok = not reachable_without(b, [ss[0][0], sr[0][0]], cut)
         ct = b.call_term(*ss[0])
-        arg = peel_all(ct[2][1])
+        arg = peel_all(expand_vars(b, ct[2][1]))
         if is_call(arg, r'Option::(unwrap|expect)$'):
-            arg = arg[2][0]
-        okadv = (is_call(arg, r'core::num::checked_add$') and is_call(arg[2][0], r'Input::start$') and self_input(peel(arg[2][0][2][0])) and arg[2][1] == ('c', 1)) or \
+            arg = peel_all(expand_vars(b, arg[2][0]))
+        okadv = (is_call(arg, r'core::num::checked_add$') and is_call(expand_vars(b, arg[2][0]), r'Input::start$') and self_input(peel(expand_vars(b, arg[2][0])[2][0])) and arg[2][1] == ('c', 1)) or \
                 (arg[0] == 'op' and arg[1] == 'Add' and is_call(arg[2], r'Input::start$') and arg[3] == ('c', 1))
         ok = ok and okadv and self_input(peel(ct[2][0])) and sr[0][0] in b.reach_after(ss[0][0])
     cx.report('R01.6', h, 'empty-rule', ok, 'if Some(m.end()) == last_match_end: advance the start by exactly 1 and search again; otherwise keep m' if ok else 'the empty-match rule deviates (guard Some(m.end()) == last_match_end, start + 1, re-search)')
-    rets = [(bi, b.rvalue_term(st['r'], 0, bi)) for bi, si, pl, st in b.stores() if si != 'term' and pl['l'] == 0 and not pl['pr']]
-    okr = all((is_agg(v, r'Option$', 'Some') and v[3]['0'] == M) for bi, v in rets) and len(rets) >= 1
-    cx.report('R01.6', h, 'returns', okr, 'returns Some(m) (or None from the re-search)' if okr else 'returns %s' % [tstr(v, 60) for _, v in rets])
+    rets = [(bi, si, b.rvalue_term(st['r'], 0, bi)) for bi, si, pl, st in b.stores() if si != 'term' and pl['l'] == 0 and not pl['pr']]
+    okr = len(rets) >= 1
+    for bi, si, v in rets:
+        if is_agg(v, r'Option$', 'Some'):
+            roots = value_roots(b, v[3]['0'], bi, si)
+            # either the parameter itself (kept) or the result of the re-search
+            good = all(r == M or is_call(r, r'FindIter::search$') for r in roots) and bool(roots)
+            # the kept parameter only on the not-equal edge, the re-search result only on the equal edge
+            okr = okr and good
+        elif is_agg(v, r'Option$', 'None'):
+            # only as the propagated None of the re-search
+            g = discr_gates(b, lambda x: is_call(x, r'FindIter::search$'))
+            okr = okr and bool(g) and all(bi in b.reach(gb) for gb, x, arms, oth in g)
+        elif is_call(v, r'FromResidual::from_residual$'):
+            pass
+        else:
+            okr = False
+    cx.report('R01.6', h, 'returns', okr, 'returns Some(kept m), Some(re-searched m) or the re-search\'s None' if okr else 'returns %s' % [tstr(v, 60) for _, _, v in rets])
     # Input::set_start keeps the end
     s = cx.body("util::search::Input::<'h>::set_start")
     ct = [s.call_term(bi, t) for bi, t in s.calls(r'Input::set_span$')]
     ok = False
     if len(ct) == 1:
-        sp = peel_all(ct[0][2][1])
+        sp = peel_all(expand_vars(s, ct[0][2][1]))
         if is_agg(sp, r'(core::ops::Range|util::search::Span)$') and isinstance(sp[3], dict):
-            e = sp[3]['end']
-            oke = is_call(e, r'Input::end$') or (e[0] == 'f' and e[2] == 'end' and (is_call(e[1], r'Input::get_span$') or (e[1][0] == 'f' and e[1][2] == 'span')))
-            ok = is_var(sp[3]['start'], 'start') and oke and is_var(peel(ct[0][2][0]), 'self')
+            e = expand_vars(s, sp[3]['end'])
+            oke = is_call(e, r'Input::end$') or (e[0] == 'f' and e[2] == 'end' and (is_call(expand_vars(s, e[1]), r'Input::get_span$') or (e[1][0] == 'f' and e[1][2] == 'span')))
+            ok = sp[3]['start'] == param_at(s, 2) and oke and is_var(peel(ct[0][2][0]), 'self')
     cx.report('R01.6', s, 'set_start', ok, 'set_start(start) = set_span(start..self.end())' if ok else 'set_start does not keep the end of the span')
 
 
